@@ -738,6 +738,10 @@ class EscapeAnalysis:
                 for item in self.summaries.get(setter.qualname, {}).values():
                     result.append(item.via(func.qualname, call.lineno))
         targets = self.graph.resolve_call(func, call)
+        if targets in ([("ext", "builtins.map")], [("ext", "builtins.filter")]) and call.args:
+            applied = self._applied_function(call, func)
+            if applied is not None:
+                return result + applied
         if self.count_sites:
             self.call_sites += 1
             if targets and not all(isinstance(t, tuple) and t[0] in ("unknown", "method") for t in targets):
@@ -763,6 +767,65 @@ class EscapeAnalysis:
                 for cls_name in classes:
                     result.append(Item(cls_name, (func.qualname, call.lineno, ast.unparse(call)[:90])))
         return result
+
+    # consumers that exhaust a lazy iterator where they stand, so that what the mapped function raises escapes *here*
+    _EAGER_CONSUMERS = {"list", "tuple", "set", "frozenset", "sorted", "any", "all", "sum", "min", "max", "dict"}
+
+    def _eagerly_consumed(self, call, func):
+        """Is the map()/filter() object handed directly to something that iterates it to its end (or to the first
+        exception) in this very expression?  Anything else (bound to a name, returned, stored) would raise somewhere
+        else, which this analysis does not follow."""
+        cache = self.__dict__.setdefault("_eager_cache", {})
+        consumed = cache.get(func.qualname)
+        if consumed is None:
+            consumed = set()
+            for node in walk_own(func.node):
+                candidates = []
+                if isinstance(node, ast.Call):
+                    callee = node.func
+                    if isinstance(callee, ast.Name) and callee.id in self._EAGER_CONSUMERS and node.args:
+                        candidates.append(node.args[0])
+                    elif isinstance(callee, ast.Attribute) and callee.attr in ("join", "extend", "update") and node.args:
+                        candidates.append(node.args[0])
+                elif isinstance(node, ast.For):
+                    candidates.append(node.iter)
+                elif isinstance(node, (ast.ListComp, ast.SetComp, ast.DictComp)):  # not GeneratorExp: lazy itself
+                    candidates.extend(generator.iter for generator in node.generators)
+                elif isinstance(node, ast.Starred):
+                    candidates.append(node.value)
+                for candidate in candidates:
+                    consumed.add(id(candidate))
+            cache[func.qualname] = consumed
+        return id(call) in consumed
+
+    def _applied_function(self, call, func):
+        """Escapes of ``map(f, xs)`` / ``filter(f, xs)``: those of a call of ``f`` - a name, an attribute, a lambda or
+        ``operator.methodcaller("m")`` (every method of that name in the repository).  None (the caller then reports
+        an untabled external, i.e. exit 2) when ``f`` is anything else or the iterator is not consumed on the spot."""
+        if not self._eagerly_consumed(call, func):
+            return None
+        applied = call.args[0]
+        if isinstance(applied, ast.Constant) and applied.value is None:
+            return []
+        if isinstance(applied, ast.Lambda):
+            return self._expressions(applied.body, func)
+        if isinstance(applied, (ast.Name, ast.Attribute)):
+            synthetic = ast.copy_location(ast.Call(func=applied, args=[ast.Name(id="_mapped_item", ctx=ast.Load())], keywords=[]), call)
+            ast.fix_missing_locations(synthetic)
+            return self._call(synthetic, func)
+        if isinstance(applied, ast.Call) and applied.args and isinstance(applied.args[0], ast.Constant) \
+                and isinstance(applied.args[0].value, str) \
+                and (self.graph.resolve_call(func, applied) == [("ext", "operator.methodcaller")]
+                     or dotted(applied.func) in ("operator.methodcaller", "methodcaller")):
+            methods = self.graph._methods_by_name.get(applied.args[0].value, [])
+            if not methods:
+                return None
+            result = []
+            for method in methods:
+                for item in self.summaries.get(method.qualname, {}).values():
+                    result.append(item.via(func.qualname, call.lineno))
+            return result
+        return None
 
     def _subscript(self, node, func):
         """<module-level constant dict>[non-literal key] -> KeyError."""
